@@ -171,6 +171,19 @@ def run(ctx):
                 "small=24", "cap=4000", "extra=300", "runs=300", f"out={rnd}"])
     gen_stats = json.loads(p.stderr.decode().strip().splitlines()[-1])
     batches = [Batch("corpus", corpus), Batch("random", rnd)]
+    # one pinned font per recorded open finding (known_findings/repro/C11-<key>.json), so that a finding shows
+    # in every run whatever the seed draws
+    pinned = w / "pinned.ndjson"
+    with open(pinned, "w") as pf:
+        for rp in sorted((VERIF / "known_findings" / "repro").glob("C11-*.json")):
+            key = rp.stem[len("C11-"):]
+            if not ctx.finding_for(key):
+                continue
+            one = w / f"pinned-{key}.ndjson"
+            vh(["c11-one", f"font={rp}", "seed=1", "small=16", "cap=1500", "extra=120", "runs=100", f"out={one}"])
+            pf.write(one.read_text())
+    if pinned.stat().st_size > 0:
+        batches.append(Batch("pinned", pinned))
 
     # ---------------- models, negative controls, replay dumps, validation: side by side -----
     jobs = []
